@@ -208,7 +208,113 @@ class Versions(FnSpec):
 def add_tocread(reg):
     reg.set_class_home("TOCSchemasRead", "container/interface.py", "TOCSchemas")
     reg.method_bindings[("TOCSchemasRead", "__getitem__")] = getitem_stub
-    specs = [GetItem(), Get(), Versions()]
+    specs = [GetItem(), Get(), Versions(), Children()]
     for s in specs:
         reg.add(s)
     return specs
+
+
+# ---- TOCSchemas.children: the descendants the container knows for a schema ---------------------------------------------------------------------
+CH_HAS = z3.Function("children_map_has_entry_for", PRef, B)  # ref in self._children
+CH_OF = z3.Function("children_map_lists", PRef, PRef, B)  # c in self._children[ref]
+HAS_VER = z3.Bool("a_version_is_given")
+
+
+class MapTok(SVal):
+    def __init__(self, f, src):
+        self.f, self.src = f, src
+
+
+class FilterTok(SVal):
+    """*filter(lambda x: x is not None, map(self._children.get, s_refs)) as an argument list of symbolic length"""
+
+    def __init__(self, m):
+        self.m = m
+
+    def elementwise(self, interp, cx):
+        src = self.m.src
+        if isinstance(src, list):  # [the one requested ref]
+            if len(src) != 1 or not isinstance(src[0], RefV):
+                raise Unsupported("another concrete list of refs")
+            r = z3.Const(fresh_name("cr"), PRef)
+            rng = z3.And(r == src[0].t, CH_HAS(r))
+        elif isinstance(src, SSet):
+            r = z3.Const(fresh_name("cr"), PRef)
+            rng = z3.And(src.has(r), CH_HAS(r))
+        else:
+            raise Unsupported("refs of another shape")
+        x = z3.Const(fresh_name("cc"), PRef)
+        return r, rng, SSet(TRefS(), z3.Lambda([x], CH_OF(r, x)))
+
+
+class ChildrenMapStub(SVal):
+    def meth_keys(self, cx):
+        r = z3.Const(fresh_name("kr"), PRef)
+        return SSet(TRefS(), z3.Lambda([r], CH_HAS(r)))
+
+    def py_getattr(self, cx, n):
+        if n == "get":
+            return "children.get"
+        raise Unsupported("children map attribute " + n)
+
+
+class UnionStart(SVal):
+    def meth_union(self, cx, *args):
+        if len(args) != 1 or not hasattr(args[0], "elementwise"):
+            raise Unsupported("set().union of something else")
+        bound, rng, val = args[0].elementwise(cx.run.interp, cx)
+        x = z3.Const(fresh_name("ux"), PRef)
+        res = SSet.fresh(TRefS(), "united")
+        cx.assume(z3.ForAll([x], res.has(x) == z3.Exists([bound], z3.And(rng, val.has(x)))))
+        return res
+
+
+class Children(FnSpec):
+    file = "container/interface.py"
+    qual = "TOCSchemas.children"
+    props = ("C07", "C20")
+
+    def init(self):
+        self.bindings["schemas"] = SchemasNS()
+        self.bindings["plugin_args"] = lambda cx, s, v: STuple((cx.ghost["ch"].name, cx.ghost["ch"].ver))
+        self.bindings["set"] = lambda cx, *a: UnionStart() if not a else (_ for _ in ()).throw(Unsupported("set(x)"))
+        self.bindings["map"] = lambda cx, f, src: MapTok(f, src) if f == "children.get" else (_ for _ in ()).throw(Unsupported("map of another function"))
+        self.bindings["filter"] = self._filter
+        self.comps[0] = list_filter_schema
+
+    @staticmethod
+    def _filter(cx, f, m):
+        from pyvc.engine import Closure
+
+        import ast as _ast
+
+        ok = isinstance(f, Closure) and isinstance(f.node, _ast.Lambda) and _ast.unparse(f.node.body).replace(" ", "") in ("xisnotNone",)
+        if not ok or not isinstance(m, MapTok):
+            raise Unsupported("filter of another shape than `x is not None` over map(children.get, refs)")
+        return FilterTok(m)
+
+    def setup(self, cx):
+        me = SObj("TOCSchemasRead", name="self")
+        me.fields["_children"] = ChildrenMapStub()
+        with_ver = cx.choose(2) == 1
+        a = A(self=me, schema="schema-arg", version="version-arg")
+        a.name = SStr.fresh("schema_name")
+        a.ver = VerV(z3.Const("requested_version", Ver)) if with_ver else None
+        a.with_ver = with_ver
+        cx.ghost["ch"] = a
+        return a
+
+    def raises(self, cx, a):
+        return {}
+
+    def ensures(self, cx, a, res):
+        if not isinstance(res, SSet):
+            return [("a-set-of-refs", z3.BoolVal(False), "")]
+        x, r = z3.Const(fresh_name("ex"), PRef), z3.Const(fresh_name("er"), PRef)
+        if a.with_ver:
+            want = z3.And(CH_HAS(MKREF(a.name.t, a.ver.t)), CH_OF(MKREF(a.name.t, a.ver.t), x))
+            cl = "with a version: exactly the children the container lists for that very release (nothing if it does not know it)"
+        else:
+            want = z3.Exists([r], z3.And(CH_HAS(r), R_NAME(r) == a.name.t, CH_OF(r, x)))
+            cl = "without a version: the union over ALL releases of that schema name the container knows"
+        return [("exactly-the-listed-children", z3.ForAll([x], res.has(x) == want), cl)]
